@@ -143,6 +143,12 @@ def _plane_obj(lentil, st, lam, N):
         o_n = o.astype(st['opd_dtype'])
         if np.array_equal(o_n.astype(float), o):
             o = o_n
+    if st.get('amp_dtype') and isinstance(a, np.ndarray):
+        a_n = a.astype(st['amp_dtype'])
+        if np.array_equal(a_n.astype(float), a):
+            a = a_n
+    if st.get('mask_dtype') and isinstance(m, np.ndarray):
+        m = m.astype(st['mask_dtype'])           # a mask is binary: the type it is stored in carries no information
     kw = dict(amplitude=a, opd=o, mask=m, pixelscale=px)
     if cls == 'Pupil':
         p = lentil.Pupil(focal_length=None if st['z'] == [] else float(rf(st['z'])), **kw)
